@@ -89,6 +89,10 @@ def explore(fn, max_paths=None):
         if CUR.unc and any(tuple(CUR.path.prefix[:k]) in CUR.unc for k in range(1, len(CUR.path.prefix) + 1)): CUR.path.uncertain = True
         try:
             out = fn()
+            if getattr(CUR.path, 'uncertain', False):
+                r = _recheck_feasible(CUR.path)
+                if r == 'unsat': continue
+                if r != 'sat': raise Undecided('feasibility of a path could not be decided')
             results.append((CUR.path, out, None))
         except Abort:
             continue
